@@ -51,16 +51,16 @@ type Coin struct {
 }
 
 type Op struct {
-	Kind  string   `json:"kind"` // deposit | withdraw | borrow | repay | liquidate | price | donate | block | params
-	A     int      `json:"a,omitempty"`
-	B     int      `json:"b,omitempty"`
-	Coins []Coin   `json:"coins,omitempty"`
-	D     int      `json:"d,omitempty"`
-	X     string   `json:"x,omitempty"`  // price mantissa / donated amount
-	T     int64    `json:"t,omitempty"`  // block: seconds to advance
-	Fs    []string `json:"fs,omitempty"` // block: oracle factors (recomputed from the implementation at execution)
-	X2    string   `json:"tag,omitempty"` // generator tag (which mixture component produced the amount)
-	Mk    []*MarketCfg `json:"mk,omitempty"` // params: the new money markets by denom index (null = removed)
+	Kind  string       `json:"kind"` // deposit | withdraw | borrow | repay | liquidate | price | donate | block | params
+	A     int          `json:"a,omitempty"`
+	B     int          `json:"b,omitempty"`
+	Coins []Coin       `json:"coins,omitempty"`
+	D     int          `json:"d,omitempty"`
+	X     string       `json:"x,omitempty"`   // price mantissa / donated amount
+	T     int64        `json:"t,omitempty"`   // block: seconds to advance
+	Fs    []string     `json:"fs,omitempty"`  // block: oracle factors (recomputed from the implementation at execution)
+	X2    string       `json:"tag,omitempty"` // generator tag (which mixture component produced the amount)
+	Mk    []*MarketCfg `json:"mk,omitempty"`  // params: the new money markets by denom index (null = removed)
 }
 
 type MarketCfg struct {
@@ -113,18 +113,18 @@ type Hist struct {
 }
 
 type world struct {
-	tApp   app.TestApp
-	ctx    sdk.Context
-	hk     hardkeeper.Keeper
-	pk     pfkeeper.Keeper
-	addrs  []sdk.AccAddress
-	cfg    Cfg
-	height int64
-	now    time.Time
-	cf     []*big.Int
-	cur     []*MarketCfg // money markets of the params as last written with SetParams
-	inForce []*MarketCfg // the params as of the last successful begin block
-	dirty   bool         // params changed since the last successful begin block
+	tApp          app.TestApp
+	ctx           sdk.Context
+	hk            hardkeeper.Keeper
+	pk            pfkeeper.Keeper
+	addrs         []sdk.AccAddress
+	cfg           Cfg
+	height        int64
+	now           time.Time
+	cf            []*big.Int
+	cur           []*MarketCfg // money markets of the params as last written with SetParams
+	inForce       []*MarketCfg // the params as of the last successful begin block
+	dirty         bool         // params changed since the last successful begin block
 	prevForce     []*MarketCfg // the params in force before the last successful begin block
 	keeperChanged bool         // some market's keeper share alone was changed by governance
 	opSeq         int          // operations executed so far (stamp of statCache)
@@ -898,6 +898,27 @@ func runC08(o Opts) (*Result, error) {
 	if err := flush(); err != nil {
 		return nil, err
 	}
+	// arithmetic probes of the four interest computations (arith.go, coq/Model/HardArith.v)
+	nArith := 600
+	if o.Tier == "thorough" {
+		nArith = 20000
+	}
+	terms, afails := arithProbes(o.Seed, nArith, cnt)
+	for len(terms) > 0 {
+		k := len(terms)
+		if k > 1500 {
+			k = 1500
+		}
+		name, err := WriteShard(o.OutDir, shard, arithHeader, terms[:k], "arith_mismatches")
+		if err != nil {
+			return nil, err
+		}
+		res.Shards = append(res.Shards, name)
+		shard++
+		terms = terms[k:]
+	}
+	res.Evaluations += nArith
+	res.Failures = append(res.Failures, afails...)
 	res.Counters = cnt.Map()
 	for _, k := range allSplits {
 		if res.Counters["split:"+k] == 0 {
